@@ -31,6 +31,7 @@ MSG = {"Ifdef": "expected macro name after #ifdef",
        "Define": "expected macro name after #define"}
 MSG_EOF = "reached EOF without matching #endif"
 PREP_MSGS = set(MSG.values()) | {MSG_EOF}
+LEX_MSGS = set()        # filled by Tables (messages of the current lexer.rs)
 
 
 # ------------------------------------------------------------------------------------- reference evaluator
@@ -199,6 +200,14 @@ def judge(tb, raw, ev, prep, parse, tk2sk, sk_triv):
         return {"index": k, "expected": a[k] if k < len(a) else None, "observed": b[k] if k < len(b) else None,
                 "expected_count": len(a), "observed_count": len(b)}
 
+    # every Error TOKEN of the tree carries exactly one lexer / preprocessor message (ParserBase::save takes one)
+    if parse and "leaves" in parse and perr is not None and LEX_MSGS:
+        n_tok = sum(1 for l in parse["leaves"] if l[0] == "Error")
+        n_msg = sum(1 for m in perr if m in PREP_MSGS or m in LEX_MSGS)
+        if n_tok != n_msg:
+            fails.append({"rule": cls + "-one-message-per-error-token",
+                          "expected": "%d Error tokens in the tree -> %d lexer/preprocessor messages in Parse::errors()" % (n_tok, n_tok),
+                          "observed": [m for m in perr if m in PREP_MSGS or m in LEX_MSGS][:20]})
     if cls == "i":
         if real != exp:
             d = first_diff(exp, real)
@@ -267,6 +276,17 @@ def blank_unselected(tb, raw, ev):
     return bytes(out).decode("utf-8")
 
 
+def blank_disabled(tb, raw, ev):
+    """the text in which the CONTENT of every disabled region (the tokens the reference evaluation skips, nested
+    directives included, but not the #else / #endif that ends the region) is replaced by blanks: the arrangement,
+    the selected text and every preprocessor-level error stay what they were"""
+    out = bytearray(tb)
+    for i in ev["disabled"]:
+        t = raw[i]
+        out[t[1]:t[2]] = b" " * (t[2] - t[1])
+    return bytes(out).decode("utf-8")
+
+
 def strip_tree(node, sk_triv):
     """parsedump tree without trivia leaves: nodes as [kind, children], leaves as [kind, lo, hi]"""
     if node[0] == "T":
@@ -277,6 +297,29 @@ def strip_tree(node, sk_triv):
         if s is not None:
             kids.append(s)
     return [node[1], kids]
+
+
+def metamorphic_disabled(full, reduced, sk_triv, cls):
+    """classes ii / iii (and i): the same file with the content of its disabled regions blanked must give the same
+    nodes / non-trivia leaves and the SAME diagnostics, message by message ("disabled text produces neither
+    declarations nor diagnostics", also when a preprocessor error is reported later in the file)"""
+    if "tree" not in full or "tree" not in reduced:
+        if ("tree" in full) != ("tree" in reduced):
+            return [{"rule": cls + "-metamorphic-panic", "expected": reduced if "tree" not in reduced else "a tree",
+                     "observed": full if "tree" not in full else "a tree"}]
+        return []
+    fails = []
+    ea, eb = [e[2] for e in full["errors"]], [e[2] for e in reduced["errors"]]
+    if ea != eb:
+        fails.append({"rule": cls + "-disabled-text-diagnostic",
+                      "expected": {"diagnostics of the same file with the disabled text blanked": eb[:20]},
+                      "observed": {"diagnostics": ea[:20]}})
+    a, b = strip_tree(full["tree"], sk_triv), strip_tree(reduced["tree"], sk_triv)
+    if a != b:
+        fails.append({"rule": cls + "-disabled-text-nodes",
+                      "expected": "same nodes and non-trivia leaves as the file with the disabled text blanked",
+                      "observed": {"full": json.dumps(a)[:600], "blanked": json.dumps(b)[:600]}})
+    return fails
 
 
 def metamorphic(full, reduced, sk_triv):
@@ -429,6 +472,11 @@ class Tables:
     def __init__(self, repo):
         sk_index, tk_index, d = treeio.kind_tables(repo)
         self.tk_index = tk_index
+        try:
+            import t_lextables
+            LEX_MSGS.update(t_lextables.parse(repo)["msgs"])
+        except Exception:                      # noqa: BLE001  (the rule is skipped when the tables cannot be read)
+            pass
         self.tk2sk = d["tk2sk"]
         self.sk_triv = set(d["sk_triv"])
 
@@ -452,6 +500,7 @@ def examine(bindir, exe, tab, texts, parse=True, meta=False, spec=True):
     res = []
     spec_lines, spec_idx = [], []
     meta_texts, meta_idx = [], []
+    meta2_texts, meta2_idx = [], []
     miss_lines, miss_idx = [], []
     for k, t in enumerate(texts):
         r = {"text": t, "fails": [], "corr": None, "spec": "n/a", "meta": False}
@@ -495,6 +544,10 @@ def examine(bindir, exe, tab, texts, parse=True, meta=False, spec=True):
             meta_texts.append(t)
             meta_texts.append(blank_unselected(tbs[k], raw, ev))
             meta_idx.append(k)
+        if meta and ev["cls"] in ("ii", "iii") and ev["disabled"]:
+            meta2_texts.append(t)
+            meta2_texts.append(blank_disabled(tbs[k], raw, ev))
+            meta2_idx.append(k)
     if spec_lines:
         out = run_model(exe, "select", spec_lines)
         for (k, partial, arr), line in zip(spec_idx, out):
@@ -509,6 +562,11 @@ def examine(bindir, exe, tab, texts, parse=True, meta=False, spec=True):
             want = "1 " + res[k]["ev"]["stop"]["msg"].replace(" ", "_")
             res[k]["spec"] = None if line == want else {"what": "PrepSpec.missing_name / missing_name_err", "coq": line, "oracle": want}
             res[k]["spec_missing"] = True
+    if meta2_texts:
+        trees2 = run_bin(bindir, "parsedump", [], meta2_texts)
+        for j, k in enumerate(meta2_idx):
+            res[k]["meta"] = True
+            res[k]["fails"] += metamorphic_disabled(trees2[2 * j], trees2[2 * j + 1], tab.sk_triv, res[k]["cls"])
     if meta_texts:
         trees = run_bin(bindir, "parsedump", [], meta_texts)
         for j, k in enumerate(meta_idx):
